@@ -428,7 +428,8 @@ sorted list of their local Kleene indices rendered as `type_<i>`; every group of
 non-empty key is moved to a shared aggregator whose template knows only the names `type_<i>`, so no
 event of the program ever reaches it. Is stream `i` in such a group? -/
 def silenced (qs : List Query) (i : Nat) : Bool :=
-  let key := fun (q : Query) => (localKleene q).mergeSort (· ≤ ·)
+  -- `localKleene` is ascending already (positions in pattern order), so it is its own sorted key
+  let key := fun (q : Query) => localKleene q
   let me := key (qs[i]!)
   qs.length ≥ 2 && !me.isEmpty && ((qs.filter fun q => key q == me).length ≥ 2)
 
